@@ -76,7 +76,7 @@ def c02_seps(kind):
     return c02.SEP_CONVENTIONS if kind in ("delimited", "fixed") else [(".", "")]
 
 
-def check_case(ctx, model, table, store):
+def check_case(ctx, model, table, store, second_pass=False):
     import cutplace
     from cutplace import errors
 
@@ -95,8 +95,19 @@ def check_case(ctx, model, table, store):
     items = []
     crashed = None
     ctx.count("reads")
+    second_pass = isinstance(source, str) and second_pass
+    case["second_pass_of_one_reader"] = second_pass
     try:
-        for item in cutplace.rows(cid, source, on_error="yield"):
+        if second_pass:
+            # the same Reader asked for its rows again: a pass of its own, judged like the first one
+            reader = cutplace.Reader(cid, source, on_error="yield")
+            for _ in reader.rows():
+                pass
+            produced = reader.rows()
+            ctx.count("reads.second-pass")
+        else:
+            produced = cutplace.rows(cid, source, on_error="yield")
+        for item in produced:
             if isinstance(item, Exception):
                 items.append(("error", item, gen.snapshot(item)))
             else:
@@ -182,9 +193,9 @@ def run(ctx):
         rng = ctx.rng("case", i)
         store = gen.STORAGES[i % len(gen.STORAGES)]
         model, table = gen_case(rng, store)
-        check_case(ctx, model, table, store)
+        check_case(ctx, model, table, store, second_pass=(i // len(gen.STORAGES)) % 3 == 2)
 
 
 def replay(ctx, case):
     model = RM.CidModel.from_json(case["cid"])
-    check_case(ctx, model, case["table"], case["storage"])
+    check_case(ctx, model, case["table"], case["storage"], case.get("second_pass_of_one_reader", False))
